@@ -147,6 +147,9 @@ func validateCurves(config *Configuration) error {
 			if !slices.Contains(supportedTypes, curveConfig.Function.Type) {
 				return fmt.Errorf("curve %s: unsupported function type '%s', use one of: %s", curveConfig.ID, curveConfig.Function.Type, strings.Join(supportedTypes, " | "))
 			}
+			if len(curveConfig.Function.Curves) <= 0 {
+				return fmt.Errorf("curve %s: function curve must reference at least one curve", curveConfig.ID)
+			}
 
 			var connections []interface{}
 			for _, curve := range curveConfig.Function.Curves {
@@ -168,6 +171,9 @@ func validateCurves(config *Configuration) error {
 
 			if !sensorIdExists(curveConfig.Linear.Sensor, config) {
 				return fmt.Errorf("curve %s: no sensor definition with id '%s' found", curveConfig.ID, curveConfig.Linear.Sensor)
+			}
+			if curveConfig.Linear.Steps != nil && len(curveConfig.Linear.Steps) <= 0 {
+				return fmt.Errorf("curve %s: steps must contain at least one entry", curveConfig.ID)
 			}
 		}
 
